@@ -44,7 +44,9 @@ func (s *JumpMark) Process(ctx context.Context, man gdbi.Manager, in gdbi.InPipe
 				}
 				// jumps that are ahead of a mark can close before the mark
 				// gets the close
-				for _, i := range closeList {
+				//remove from the back so that the remaining indices stay valid
+				for j := len(closeList) - 1; j >= 0; j-- {
+					i := closeList[j]
 					s.inputs = append(s.inputs[:i], s.inputs[i+1:]...)
 				}
 			}
@@ -103,7 +105,9 @@ func (s *JumpMark) Process(ctx context.Context, man gdbi.Manager, in gdbi.InPipe
 					time.Sleep(time.Microsecond)
 				}
 			}
-			for _, i := range closeList {
+			//remove from the back so that the remaining indices stay valid
+			for j := len(closeList) - 1; j >= 0; j-- {
+				i := closeList[j]
 				s.inputs = append(s.inputs[:i], s.inputs[i+1:]...)
 			}
 
